@@ -41,6 +41,8 @@ def macro_isa(m):
     def variant(pat, steps):
         if pat == 'none':
             return {'instructions': steps}          # a variant without an operands section
+        if pat == 'empty':
+            return {'operands': {'count': 1, 'specific_operands': {'bare': {'list': {'nothing': {'type': 'empty'}}}}}, 'instructions': steps}
         cnt, sets = PAT[pat]
         return {'operands': {'count': cnt, 'operand_sets': {'list': sets}}, 'instructions': steps}
     variants = [variant(m['p1'], [step_text(*s) for s in m['steps']])]
